@@ -66,16 +66,17 @@ var (
 	gbox  = &lang.RecDecl{Name: "GBox", TParams: []string{"T"}, Fields: []lang.Field{{Name: "BV", T: tv("T")}, {Name: "BN", T: lang.TInt}}}
 	uniQ  = &lang.UnionDecl{Name: "UniQ", Cases: []lang.UCase{{Name: "QA", Payload: lang.TInt}, {Name: "QB", Payload: lang.TString}, {Name: "QC"}}}
 	optG  = &lang.UnionDecl{Name: "OptG", TParams: []string{"T"}, Cases: []lang.UCase{{Name: "GSome", Payload: tv("T")}, {Name: "GNone"}}}
+	gpair = &lang.RecDecl{Name: "GPair", TParams: []string{"A", "B"}, Fields: []lang.Field{{Name: "PA", T: tv("A")}, {Name: "PB", T: tv("B")}}}
 	recH = &lang.RecDecl{Name: "RecH", Fields: []lang.Field{{Name: "HP", T: lang.TTuple(lang.TInt, lang.TString)}, {Name: "HS", T: lang.TSlice(lang.TInt)},
 		{Name: "HN", T: lang.TInt}, {Name: "HT", T: lang.TString}}}
 	decls = []*lang.TopItem{
-		{Types: []*lang.TypeDecl{{Rec: recP}}}, {Types: []*lang.TypeDecl{{Rec: gbox}}}, {Types: []*lang.TypeDecl{{Rec: recH}}},
+		{Types: []*lang.TypeDecl{{Rec: recP}}}, {Types: []*lang.TypeDecl{{Rec: gbox}}}, {Types: []*lang.TypeDecl{{Rec: recH}}}, {Types: []*lang.TypeDecl{{Rec: gpair}}},
 		{Types: []*lang.TypeDecl{{Union: uniQ}}}, {Types: []*lang.TypeDecl{{Union: optG}}},
 	}
 )
 
 func newInferer(user map[string]*Scheme) *inferer {
-	in := &inferer{funcs: map[string]*Scheme{}, recs: map[string]*lang.RecDecl{"RecP": recP, "GBox": gbox, "RecH": recH},
+	in := &inferer{funcs: map[string]*Scheme{}, recs: map[string]*lang.RecDecl{"RecP": recP, "GBox": gbox, "RecH": recH, "GPair": gpair},
 		unions: map[string]*lang.UnionDecl{"UniQ": uniQ, "OptG": optG}, ctors: map[string]*lang.UnionDecl{}}
 	for k, v := range libFns {
 		in.funcs[k] = v
@@ -996,6 +997,97 @@ func genResultOnlyFunc(rt *rapid.T, ctr *int, labels map[string]bool) (*lang.Fun
 	return f, u
 }
 
+// genPartialGenericFunc generates the "generic instantiation known half from each side" family: two lets
+// build values of one generic type (a record with two type parameters, or a generic union over a pair),
+// each fixing another half of the type arguments through a literal while the other half comes from an
+// un-annotated parameter; a later expression unifies the two (=, if/else, a slice literal). The principal
+// type gives both parameters their concrete types and the result the complete instantiation.
+func genPartialGenericFunc(rt *rapid.T, ctr *int, labels map[string]bool) (*lang.FuncDecl, *userFn) {
+	g := &fgen{rt: rt, ctr: ctr, labels: labels}
+	I, S, B := lang.TInt, lang.TString, lang.TBool
+	f := &lang.FuncDecl{Name: g.fresh("fn")}
+	mk := func(t *lang.Type) *gvar {
+		name := g.fresh("p")
+		annot := g.n(5, "partialAnnot") == 0
+		f.Params = append(f.Params, lang.Param{Name: name, T: t, Annot: annot})
+		v := &gvar{name: name, t: t, known: annot}
+		g.vars = append(g.vars, v)
+		return v
+	}
+	var c *gvar
+	if g.n(1, "condParam") == 0 {
+		c = mk(B)
+	}
+	p, q := mk(S), mk(I)
+	var T *lang.Type
+	var a, b *gvar
+	if g.n(1, "partialShape") == 0 {
+		T = lang.TRec("GPair", S, I)
+		lit := func(x, y *lang.Expr) *lang.Expr {
+			e := &lang.Expr{K: "reclit", Name: "GPair", T: T, Fields: []lang.FieldInit{{Name: "PA", E: x}, {Name: "PB", E: y}}}
+			if g.n(1, "pairFieldOrder") == 0 {
+				e.Fields[0], e.Fields[1] = e.Fields[1], e.Fields[0]
+			}
+			return e
+		}
+		a = g.bind(lit(g.use(p), lang.Int(0)), T, p.known)
+		b = g.bind(lit(lang.Str("none"), g.use(q)), T, q.known)
+		labels["generic record with two type parameters, each value fixing one of them"] = true
+	} else {
+		T = lang.TUnion("OptG", lang.TTuple(S, I))
+		tup := func(x, y *lang.Expr) *lang.Expr {
+			return &lang.Expr{K: "tuple", T: lang.TTuple(S, I), Args: []*lang.Expr{x, y}}
+		}
+		a = g.bind(lang.Call("GSome", T, tup(g.use(p), lang.Int(0))), T, p.known)
+		b = g.bind(lang.Call("GSome", T, tup(lang.Str("none"), g.use(q))), T, q.known)
+		labels["generic union over a pair, each value fixing one half"] = true
+	}
+	if g.n(1, "swapSides") == 0 {
+		a, b = b, a
+	}
+	switch g.n(2, "partialUnifier") {
+	case 0:
+		g.bind(lang.Bin([]string{"=", "<>"}[g.n(1, "partialEq")], B, g.use(a), g.use(b)), B, true)
+	case 1:
+		var cond *lang.Expr
+		if c != nil {
+			cond = g.use(c)
+		} else {
+			cond = lang.Bin(">", B, g.use(q), lang.Int(3))
+		}
+		g.bind(&lang.Expr{K: "if", T: T, Args: []*lang.Expr{cond}, Then: lang.Blk(g.use(a)), Else: lang.Blk(g.use(b))}, T, true)
+	default:
+		g.bind(&lang.Expr{K: "slice", T: sl(T), Args: []*lang.Expr{g.use(a), g.use(b)}}, sl(T), true)
+	}
+	var parts []*lang.Expr
+	for _, v := range g.vars {
+		if !v.used && strings.HasPrefix(v.name, "v") {
+			parts = append(parts, g.use(v))
+		}
+	}
+	if len(parts) == 0 {
+		parts = append(parts, lang.Int(0))
+	}
+	res := parts[0]
+	if len(parts) > 1 {
+		var tsx []*lang.Type
+		for _, x := range parts {
+			tsx = append(tsx, x.T)
+		}
+		res = &lang.Expr{K: "tuple", T: lang.TTuple(tsx...), Args: parts}
+		if len(parts) > 3 {
+			res = &lang.Expr{K: "tuple", T: lang.TTuple(parts[0].T, parts[1].T), Args: parts[:2]}
+		}
+	}
+	f.Ret = res.T
+	f.Body = &lang.Block{Stmts: g.stmts, Final: res}
+	u := &userFn{name: f.Name, ret: f.Ret}
+	for _, x := range f.Params {
+		u.params = append(u.params, x.T)
+	}
+	return f, u
+}
+
 func hasTVar(t *lang.Type) bool {
 	if t == nil {
 		return false
@@ -1263,7 +1355,9 @@ func genCase(rt *rapid.T) (Case, map[string]bool, int, error) {
 	for i := 0; i < nf; i++ {
 		var f *lang.FuncDecl
 		var u *userFn
-		if k := rapid.IntRange(0, 5).Draw(rt, "staged"); k == 0 {
+		if k := rapid.IntRange(0, 6).Draw(rt, "staged"); k == 6 {
+			f, u = genPartialGenericFunc(rt, &ctr, labels)
+		} else if k == 0 {
 			f, u = genStagedFunc(rt, &ctr, labels)
 		} else if k == 1 {
 			f, u = genFieldFunc(rt, &ctr, labels)
